@@ -18,7 +18,8 @@ struct Attempt {
 	uint64_t disp_seq = 0; int64_t disp_ms = 0;     // dispatched by the SDK (TCP: = sent; HTTP: handed to libcurl)
 	bool returned = false; uint64_t returned_seq = 0;
 	int state = 0, err = 0; long ext = 0;
-	size_t failed_run = 0; int failed_err = 0; int64_t failed_ms = 0;      // run call (1-based) in which the SDK put it into the error state
+	size_t failed_run = 0; int failed_err = 0; int64_t failed_ms = 0;
+	size_t resp_run = 0;                            // run call in which the SDK matched a response to it      // run call (1-based) in which the SDK put it into the error state
 };
 
 struct HRec {
